@@ -130,7 +130,7 @@ func decodeC03(a [][]byte) []c03Req {
 func init() {
 	Register(&Prop{
 		ID: "C03", NoShrink: true,
-		Rule: "pipelines of 1..4 requests (GET/HEAD/POST x HTTP/1.0 keep-alive/1.1) whose handlers build the response by generated programs: every status 200..999 (each once with a body and a following request; 204/304 weighted), status message, body streams behind readers of every contract-conforming behaviour (WriterTo, plain, final bytes with io.EOF, one byte per Read, zero-length reads), added headers (repeated names), framing fields set by hand in several letter cases (header normalising on and off), cookies, " +
+		Rule: "pipelines of 1..4 requests (GET/HEAD/POST x HTTP/1.0 keep-alive/1.1) whose handlers build the response by generated programs: every status 200..999 (each once with a body and a following request; 204/304 weighted), status message, body streams behind readers of every contract-conforming behaviour (WriterTo, plain, final bytes with io.EOF, one byte per Read, zero-length reads, failing before the first byte or after the first piece), added headers (repeated names), framing fields set by hand in several letter cases (header normalising on and off), cookies, " +
 			"body set/append/raw, SetBodyStream with declared size exact / short / long (by more than a buffer) / unknown, SetBodyStreamWriter, SkipBody; the wire is parsed with net/http.ReadResponse (the independent parser) knowing the request methods; " +
 			"non-trivial = some response carries a body or a stream; distinct = distinct input",
 		Parallel: true,
@@ -157,6 +157,14 @@ func init() {
 					br := bufio.NewReader(bytes.NewReader(out))
 					for i, q := range reqs {
 						mismatch := q.bodyKind == "stream" && q.decl >= 0 && q.decl != q.act && q.method != "HEAD" && !q.skip && !(q.status == 204 || q.status == 304)
+						if c03Failing(q) && q.method != "HEAD" && !q.skip && !(q.status == 204 || q.status == 304) {
+							// the response to this request cannot be completed: whatever reached the wire for it, the connection
+							// must be closed afterwards — and every EARLIER response (checked above) must be there in full
+							if !res.Trace.Closed {
+								return Verdict{VSpec, "stream-failure-not-closed", desc(i)}
+							}
+							return Ok()
+						}
 						if _, err := br.Peek(1); err != nil {
 							if mismatch || (i > 0 && c03Mismatch(reqs[i-1])) {
 								return Ok()
@@ -307,7 +315,7 @@ func init() {
 						for len(q) < 12 {
 							q = append(q, "")
 						}
-						q = append(q, r.Pick([]string{"p", "e", "e", "1", "z"}))
+						q = append(q, r.Pick([]string{"p", "e", "e", "1", "z", "x", "X"}))
 					}
 					args = append(args, B(strings.Join(q, "\x1f")))
 				}
@@ -318,5 +326,10 @@ func init() {
 }
 
 func c03Mismatch(q c03Req) bool {
-	return q.bodyKind == "stream" && q.decl >= 0 && q.decl != q.act
+	return q.bodyKind == "stream" && ((q.decl >= 0 && q.decl != q.act) || c03Failing(q))
+}
+
+// c03Failing: the stream's Read fails (before the first byte, or after the first piece when there is more than one piece)
+func c03Failing(q c03Req) bool {
+	return q.bodyKind == "stream" && (q.rmode == "x" || (q.rmode == "X" && q.act > 1000))
 }
